@@ -169,14 +169,21 @@ type pkgInfo struct {
 	consts map[string]string // "fn.name" -> exact value
 	chans  map[string]string // "fn.var" -> capacity
 	waits  map[string]bool   // fn -> the function waits for a goroutine (bare receive statement or x.Wait())
-	err    error
+	// lockFirst: fn -> "Lock" / "RLock" when the body starts with  x.Lock(); defer x.Unlock()  (resp. RLock/RUnlock),
+	// i.e. the whole body runs under that lock; lockers: functions whose body calls Lock or RLock anywhere;
+	// calls: fn -> names of the functions and methods it calls
+	lockFirst map[string]string
+	lockers   map[string]bool
+	calls     map[string]map[string]bool
+	err       error
 }
 
 var fset = token.NewFileSet()
 var sharedImporter = importer.ForCompiler(fset, "source", nil)
 
 func load(repo, dir string) *pkgInfo {
-	pi := &pkgInfo{consts: map[string]string{}, chans: map[string]string{}, waits: map[string]bool{}}
+	pi := &pkgInfo{consts: map[string]string{}, chans: map[string]string{}, waits: map[string]bool{},
+		lockFirst: map[string]string{}, lockers: map[string]bool{}, calls: map[string]map[string]bool{}}
 	full := filepath.Join(repo, dir)
 	pkgs, err := parser.ParseDir(fset, full, func(fi os.FileInfo) bool {
 		return !strings.HasSuffix(fi.Name(), "_test.go")
@@ -201,6 +208,7 @@ func load(repo, dir string) *pkgInfo {
 					switch d := m.(type) {
 					case *ast.FuncDecl:
 						if d.Body != nil && m != n {
+							recordLocking(pi, d)
 							walk(d.Body, d.Name.Name)
 						}
 						return m == n
@@ -240,6 +248,70 @@ func load(repo, dir string) *pkgInfo {
 		}
 	}
 	return pi
+}
+
+// methodCall returns the method name of a statement of the form  x.M()  (or  defer x.M()).
+func methodCall(e ast.Expr) string {
+	call, ok := e.(*ast.CallExpr)
+	if !ok || len(call.Args) != 0 {
+		return ""
+	}
+	if sel, ok := call.Fun.(*ast.SelectorExpr); ok {
+		return sel.Sel.Name
+	}
+	return ""
+}
+
+func recordLocking(pi *pkgInfo, d *ast.FuncDecl) {
+	fn := d.Name.Name
+	pi.calls[fn] = map[string]bool{}
+	if len(d.Body.List) >= 2 {
+		if es, ok := d.Body.List[0].(*ast.ExprStmt); ok {
+			if ds, ok := d.Body.List[1].(*ast.DeferStmt); ok {
+				a, b := methodCall(es.X), methodCall(ds.Call)
+				if a == "Lock" && b == "Unlock" || a == "RLock" && b == "RUnlock" {
+					pi.lockFirst[fn] = a
+				}
+			}
+		}
+	}
+	first := true
+	ast.Inspect(d.Body, func(m ast.Node) bool {
+		if call, ok := m.(*ast.CallExpr); ok {
+			name := ""
+			switch f := call.Fun.(type) {
+			case *ast.SelectorExpr:
+				name = f.Sel.Name
+			case *ast.Ident:
+				name = f.Name
+			}
+			if name == "Lock" || name == "RLock" {
+				if first && pi.lockFirst[fn] != "" {
+					first = false // the opening lock itself
+				} else {
+					pi.lockers[fn+"#inner"] = true
+				}
+				pi.lockers[fn] = true
+			} else if name != "" {
+				pi.calls[fn][name] = true
+			}
+		}
+		return true
+	})
+}
+
+// wholeBodyLocked: the function runs entirely under the given lock and neither it nor a function of the same
+// package that it calls takes the lock again.
+func wholeBodyLocked(pi *pkgInfo, fn, kind string) bool {
+	if pi.lockFirst[fn] != kind || pi.lockers[fn+"#inner"] {
+		return false
+	}
+	for callee := range pi.calls[fn] {
+		if pi.lockers[callee] {
+			return false
+		}
+	}
+	return true
 }
 
 func recordChan(pi *pkgInfo, info *types.Info, fn, name string, e ast.Expr) {
@@ -360,6 +432,10 @@ func main() {
 	} {
 		fmt.Fprintf(&b, "Definition %s : bool := %v.\n", w.coq, get(w.dir).waits[w.fn])
 	}
+	b.WriteString("\n(* circular queue: Add runs entirely under the write lock, GetMessages entirely under the read lock,\n   neither takes the lock again (directly or through a function of the package) *)\n")
+	cq := get("apps/proxy/circular_queue")
+	fmt.Fprintf(&b, "Definition queue_add_locked : bool := %v.\n", wholeBodyLocked(cq, "Add", "Lock"))
+	fmt.Fprintf(&b, "Definition queue_get_locked : bool := %v.\n", wholeBodyLocked(cq, "GetMessages", "RLock"))
 	if *out != "" {
 		path := filepath.Join(*out, "GenConsts.v")
 		old, _ := os.ReadFile(path)
